@@ -565,4 +565,11 @@ theorem filtermapF_filter_spec {m : FMF} {es : Spec} (h : FMFInv m es) (f : List
   have := h.1.lt id e he
   rw [h.2.2] at this; exact this
 
+
+/-- **checker soundness** (L3): when the driver's `sameIds` accepts an implementation answer, that answer is a
+    rearrangement of the specification's (duplicate-free) id list — no omission, no spurious id, no id twice -/
+theorem sameIds_sound (impl spec : List Nat) (h : sameIds impl spec = true) : impl.Perm spec := by
+  simp only [sameIds, beq_iff_eq, sortN] at h
+  exact (List.mergeSort_perm impl _).symm.trans (h ▸ List.mergeSort_perm spec _)
+
 end AITB.Trie
